@@ -68,6 +68,10 @@ def small_tree(idx):
         t[b"big"] = Node("file", 0o644, data=[("rep", b"abc", 3 * bs + 5)])
         t[b"zt"] = Node("file", 0o644, data=[("zero", 100)])
         # duplicates of tail ends whose fragment block is already on disk when they arrive (read back through pread)
+        # same-size tail ends with different content spread over several fragment blocks: with a weak checksum (scenario
+        # gensquashfs-weak-hash) they collide and are compared byte by byte against blocks read back from the image
+        for i in (1, 3, 5, 7, 9, 11):
+            t[b"f%02ds" % i] = Node("file", 0o644, data=[("rand", 100 + i, 500)])
         t[b"zdup0"] = Node("file", 0o644, data=[("rand", 0, 900)])
         t[b"zdup1"] = Node("file", 0o644, data=[("rand", 1, 1600)])
     return t
@@ -76,8 +80,9 @@ def small_tree(idx):
 class Scenario:
     """name, tool, argv builder, stdin, output kind ('file' packer output, 'stdout', 'tree')."""
 
-    def __init__(self, name, tool, args, stdin=None, outkind="file", outpath=None, packer=False):
+    def __init__(self, name, tool, args, stdin=None, outkind="file", outpath=None, packer=False, env=None):
         self.name, self.tool, self.args, self.stdin, self.outkind, self.outpath, self.packer = name, tool, args, stdin, outkind, outpath, packer
+        self.env = env or {}
 
 
 def result_of(sc, res, work):
@@ -96,7 +101,7 @@ def run_one(binaries, sc, work, env):
     if sc.outkind == "tree":
         views.force_rmtree(sc.outpath)
         os.makedirs(sc.outpath)
-    res = core.run_tool([binaries[sc.tool]] + sc.args, env=env, stdin=sc.stdin, timeout=60, cwd=work)
+    res = core.run_tool([binaries[sc.tool]] + sc.args, env=dict(sc.env, **env), stdin=sc.stdin, timeout=60, cwd=work)
     return res
 
 
@@ -152,6 +157,7 @@ def scenarios_for(binaries, work, idx, tier):
         Scenario("sqfs2tar-xz-subdir", "sqfs2tar", ["-c", "xz", "-d", "dir", img] if idx == 0 else ["-c", "xz", "--no-xattr", img], outkind="stdout"),
         Scenario("tar2sqfs-gz", "tar2sqfs", ["-c", "zstd", "-b", "8192", "-q", "-j", "1", "-x", "-s", out], stdin=__import__("gzip").compress(tardata, mtime=0), outpath=out, packer=True),
         Scenario("gensquashfs-xattrfile", "gensquashfs", ["-c", "lz4", "-b", "4096", "-q", "-j", "1", "-F", pf, "-D", fdir, "-A", xf, "-T", out], outpath=out, packer=True),
+        Scenario("gensquashfs-weak-hash", "gensquashfs", ["-c", "gzip", "-b", "4096", "-q", "-j", "1", "-D", root, out], outpath=out, packer=True, env={"VERIF_HASH_BITS": "1"}),
         Scenario("rdsquashfs-unpack-attrs", "rdsquashfs", ["-u", "/", "-p", os.path.join(work, "unp"), "-q", "-C", "-O", "-T", "-X", img], outkind="tree", outpath=os.path.join(work, "unp")),
     ]
     return S
@@ -327,10 +333,10 @@ def main(tier):
                       "allocations made by project code); then one run per (class, k, kind) on the ASan build with exactly that fault injected at link-time wrappers. "
                       "quick enumerates every k for the two small inputs (sampling only beyond 60 syscalls / 400 allocations per class); thorough enumerates every k for the small inputs and adds two medium inputs (hundreds of inodes, several metadata and fragment blocks: every system call position up to 400 per class, the first 300 and ~900 evenly spread allocation positions); distinct = distinct (tool, class, failing call site)")
     build.build("asan")
-    items = [(i, s, tier) for i in range(2) for s in range(18)]
+    items = [(i, s, tier) for i in range(2) for s in range(19)]
     if tier != "quick":
         # the two medium inputs: positions of one scenario are spread over several workers
-        items = [(i, s, tier, part, 4) for i in range(4) for s in range(18) for part in range(4)]
+        items = [(i, s, tier, part, 4) for i in range(4) for s in range(19) for part in range(4)]
     if os.environ.get("VERIF_ONLY"):
         a, b = os.environ["VERIF_ONLY"].split(":")
         items = [(int(a), int(b), tier)]
